@@ -64,6 +64,9 @@ def gen_case(rng, max_cells=40, max_mag=8, max_events=120, zero_frac=None, rate_
     magoff = numpy.where(top, rng.uniform(1.5, 25.0, n_ev), magoff)      # the last bin is open-ended: magnitudes far above the last edge
     on_edge = (~top) & (numpy.arange(n_ev) % 7 == 3)
     magoff = numpy.where(on_edge, 0.0, magoff)                           # exactly ON the bin's lower edge (it belongs to that bin), incl. the minimum magnitude
+    below_next = (~top) & (numpy.arange(n_ev) % 7 == 5)
+    magoff = numpy.where(below_next, 1.0 - 2e-7, magoff)                 # 1e-8..1e-7 magnitude units below the NEXT edge: far outside the float round-off
+    #                                                                      tolerance (~1e-15), so still this bin
     case = {
         "nx": nx, "ny": ny, "dh": str(rng.choice(["0.1", "0.5", "0.25", "1", "0.05"])),
         "ax": str(rng.choice(["-125.4", "10", "0", "165.7", "-0.5", "4.35", "-163.7"])), "ay": str(rng.choice(["31.5", "-47.9", "0", "-0.5", "40", "40.05", "8.45"])),
